@@ -7,7 +7,7 @@ ALL = ["C%02d" % i for i in range(1, 21)]
 CHECKS = {
  "C01": dict(cat="model_checking", engine="chanmc",
    technique="explicit-state model checking of the real two-peer LightningChannel system: all interleavings of sends/in-order deliveries, canonical-state dedup, successor = replay on a fresh instance",
-   text="Every reachable state of bounded two-peer scripts (<=3 HTLCs, one fee update, dust-straddling amounts, duplicates, 7 channel types, both openers) is visited on the real lnwallet state machines; each transition is judged by signature-verifies, msat conservation, exact-balance, fee/dust/tx-output and mirror oracles computed from the explorer's own HTLC table.",
+   text="Every reachable state of bounded two-peer scripts (<=3 HTLCs, sequences of up to three fee updates incl. reverts to a rate in use, dust-straddling amounts, duplicates, 7 channel types, both openers) is visited on the real lnwallet state machines; each transition is judged by signature-verifies, msat conservation, exact-balance, fee/dust/tx-output and mirror oracles computed from the explorer's own HTLC table.",
    note="Bounded scripts and amount alphabet; canonical key drops signatures/nonces/txids (argued in engine/chanmc/world.go); kvdb atomicity.", ref="§4 C01"),
  "C02": dict(cat="fault_enumeration", engine="chanmc+crashdb",
    technique="exhaustive crash-point enumeration: a crash (both sides reload from disk) after every state-machine call of every explored schedule, incl. a second crash; durable-writes-per-step measured by a kvdb wrapper",
